@@ -143,6 +143,8 @@ def run(ctx):
     # ---------------------------------------------------------------- ATOMIC
     C13.check_function(ctx, d, False, prefix='C15-ATOMIC')
     C13.position_rule(ctx, 'C15-POS')
+    from .C16 import m2m_rule
+    m2m_rule(ctx, 'C15-M2M')          # the link rows of a deleted object are removed by the same flush: no dangling rows in a link table without a database-side cascade
     hs = [s for s in walk_no_nested(d.node) if isinstance(s, ast.For) and isinstance(s.target, ast.Name) and s.target.id == 'undo_func']
     ok = bool(hs) and all(norm(s.iter) == 'reversed(undo_funcs)' for s in hs)
     ctx.ob('C15-ATOMIC.refused-delete-replays-undo-in-reverse', d, hs[0] if hs else d.node, ok, '' if ok else 'the refusal handler of _delete_ does not replay reversed(undo_funcs)')
